@@ -365,6 +365,16 @@ func (g *cgen) directed() []*search.Constraint {
 	if r := g.refOfType("file"); g.w.files[r] != nil {
 		out = append(out, &search.Constraint{File: &search.FileConstraint{WholeRef: g.w.files[r].whole}})
 	}
+	// relations to specific permanodes (stale and live edges to the same relative)
+	for i := 0; i < 6 && i < len(g.w.pns); i++ {
+		t := &search.Constraint{BlobRefPrefix: g.w.pns[(i*5+1)%len(g.w.pns)].String()}
+		out = append(out,
+			&search.Constraint{Permanode: &search.PermanodeConstraint{Relation: &search.RelationConstraint{Relation: "child", Any: t}}},
+			&search.Constraint{Permanode: &search.PermanodeConstraint{Relation: &search.RelationConstraint{Relation: "parent", Any: t}}})
+	}
+	out = append(out,
+		&search.Constraint{Permanode: &search.PermanodeConstraint{Relation: &search.RelationConstraint{Relation: "child", EdgeType: "camliPath:y", Any: pn}}},
+		&search.Constraint{Permanode: &search.PermanodeConstraint{Relation: &search.RelationConstraint{Relation: "parent", All: tag("a")}}})
 	// nested attribute constraints evaluated on each of several member values
 	for _, t := range g.w.tags {
 		out = append(out, &search.Constraint{Permanode: &search.PermanodeConstraint{Attr: "camliMember", ValueInSet: tag(t)}})
